@@ -99,6 +99,7 @@ inductive Ev where
 
 structure Player where
   pc : PPc
+  audio : List Int               -- the iterable given to `play` (immutable; for the statements)
   all : List (List Int)          -- `chunks(audio)`, immutable
   todo : List (List Int)         -- chunks not yet written
   written : List (List Int)      -- what the device stream received
@@ -180,7 +181,8 @@ def stepMain (cfg : Cfg) (s : State) : Option State :=
     if s.finished then some { s with mlock := some .main, mpc := .pRaiseRel }
     else
       let ch := chunksOf cfg.cs audio
-      let p : Player := { pc := .new, all := ch, todo := ch, written := [], sst := .unopened,
+      let p : Player := { pc := .new, audio := audio, all := ch, todo := ch, written := [],
+                          sst := .unopened,
                           lk := none, go := false, halting := false }
       some { s with mlock := some .main, players := s.players ++ [p], mpc := .pGoSet s.players.length }
   | .pRaiseRel => some ({ s with mlock := none }.next .playThreadError)
